@@ -650,7 +650,9 @@ func c02RtspJoin(c *fw.Ctx, k int) {
 	}
 	defer s.Stop()
 	vc := []string{"avc", "hevc"}[k%2]
-	sp := gen.EsSpec{VCodec: vc, ACodec: []string{"aac", ""}[(k/2)%2], AacIdx: 4, AacChans: 2, AacObj: 2, NVideo: 36, GopLen: 6, AudioPer: 1, MaxNals: 1, BigNals: true}
+	// audio: AAC, none, or G.711 whose frames begin with bytes that read as IDR / SPS / PPS NAL headers
+	// (audio packets must never end a joiner's wait for a key frame)
+	sp := gen.EsSpec{VCodec: vc, ACodec: []string{"aac", "", "g711a", "g711u"}[(k/2)%4], AacIdx: 4, AacChans: 2, AacObj: 2, NVideo: 36, GopLen: 6, AudioPer: 1 + (k/8)%2, MaxNals: 1, BigNals: true, NalLikeAudio: true}
 	src := c07BuildInc(r, sp, 3)
 	pk := c07RtspPackets(r, src, []int{200, 400, 1200}[k%3], false, 1, uint16(r.Intn(65536)))
 	name := fmt.Sprintf("rj%d", c.Index)
@@ -837,13 +839,13 @@ func init() {
 		NumCases: func(tier string, seed int64) int {
 			n := len(c02Catalogue())
 			if tier == "thorough" {
-				return n*6 + 24
+				return n*6 + 48
 			}
-			return n + 4
+			return n + 8
 		},
 		CaseTimeout: func(string) time.Duration { return 5 * time.Minute },
 		Rule: "one case = one whole-server run of a catalogue entry (stream shape × gop_num{0,1,2} × frame cap{0,3}, half of the entries with rtmp merge_write_size 512 or 2048; shapes: A/V (H.264, H.265 classic, H.265 enhanced-RTMP with and without composition offsets, i.e. CodedFrames / CodedFramesX packets), video-only, audio-only, G.711, Opus+video, sequence-header change at a GOP boundary and mid-GOP, mid-GOP metadata, long GOP, and re-publish histories A/V→audio-only, audio-only→A/V, A/V→A/V) in which an RTMP, an HTTP-FLV and an HTTP-TS joiner are attached at EVERY message index (publisher paused, exact admission index). " +
-			"oracle (Appendix A.1 of DESIGN.md): latest metadata/sequence headers before media and nothing else; header-in-force register equals the header each frame was published under; first video frame is a key frame; replayed GOPs are the last min(gop_num, #keys) GOPs, oldest first, prefixes cut only at cap/cap+1; live continues at the next message (or next key frame when nothing was replayed and the incarnation has video); audio-only incarnations get one of the next 3 audio frames; TS: PAT,PMT first, first video PES random-access with SPS/PPS of the header in force and carrying the key frame the replay rule names (oldest of the last min(gop_num,#keys) GOPs, else the next key frame; never a frame of an earlier incarnation). rtmp, http-flv and http-ts get different gop_num / cap values in two thirds of the cases (each protocol has its own setting). cell = protocol × shape × gop × cap × join class. thorough repeats the catalogue with other seeds (frame sizes / timestamps). Plus RTSP-to-RTSP cases: a publisher over interleaved TCP whose frames span many RTP packets and up to 10 subscribers whose PLAY completes between two packets, six of them between two fragments of a key frame - the first video packet each receives must start a key-frame access unit.",
+			"oracle (Appendix A.1 of DESIGN.md): latest metadata/sequence headers before media and nothing else; header-in-force register equals the header each frame was published under; first video frame is a key frame; replayed GOPs are the last min(gop_num, #keys) GOPs, oldest first, prefixes cut only at cap/cap+1; live continues at the next message (or next key frame when nothing was replayed and the incarnation has video); audio-only incarnations get one of the next 3 audio frames; TS: PAT,PMT first, first video PES random-access with SPS/PPS of the header in force and carrying the key frame the replay rule names (oldest of the last min(gop_num,#keys) GOPs, else the next key frame; never a frame of an earlier incarnation). rtmp, http-flv and http-ts get different gop_num / cap values in two thirds of the cases (each protocol has its own setting). cell = protocol × shape × gop × cap × join class. thorough repeats the catalogue with other seeds (frame sizes / timestamps). Plus RTSP-to-RTSP cases (audio: AAC, none, or G.711 whose frames begin with bytes that read as IDR/SPS/PPS NAL headers - an audio packet must never end a joiner's wait): a publisher over interleaved TCP whose frames span many RTP packets and up to 10 subscribers whose PLAY completes between two packets, six of them between two fragments of a key frame - the first video packet each receives must start a key-frame access unit.",
 		Assumptions: []string{"reference RTMP/FLV/TS decoders (harness/ref)", "generated streams are decodable from their start (first video frame after a sequence header is a key frame)",
 			"RTSP joiners of an RTMP-published stream are covered by C06's RTSP consumer start checks; RTSP joiners of an RTSP-published stream by the rtsp-join cases here"},
 		MinCells: 20,
